@@ -265,6 +265,11 @@ func (r *Rec) Report(t failer, desc interface{}, v *Violation, extra ...interfac
 	}
 	r.lastFail = fr
 	r.nFail++
+	if jp := os.Getenv("VERIF_JOURNAL"); jp != "" {
+		// survives a later hang or crash of the process (Finish turns it into the proper replay file)
+		b, _ := json.Marshal(fr)
+		_ = os.WriteFile(jp+".fail", b, 0o644)
+	}
 	r.mu.Unlock()
 	t.Fatalf("violation key=%s: %s", v.Key, v.Msg)
 }
@@ -350,6 +355,9 @@ func (r *Rec) Finish(t *testing.T) {
 	}
 	if r.journal != "" {
 		_ = os.Remove(r.journal)
+	}
+	if jp := os.Getenv("VERIF_JOURNAL"); jp != "" {
+		_ = os.Remove(jp + ".fail")
 	}
 	if len(sf.Missing) > 0 && r.lastFail == nil {
 		fmt.Printf("\nVERIF-INCONCLUSIVE property=%s generator never produced class(es) %v\n", r.Prop, sf.Missing)
